@@ -124,7 +124,7 @@ func runOne(t *testing.T, sc *props.Scenario, tier string, wt, st *simkit.Tape) 
 		rec.Events, rec.Steps = w.Stats.Events, w.Stats.Steps
 		rec.SimMs = int64(w.SimTime() / time.Millisecond)
 		rec.MaxParked, rec.Concurrent = w.Stats.MaxParked, w.Stats.Concurrent
-		rec.Faults, rec.Probes = w.Stats.Faults, w.Stats.Probes
+		rec.Faults, rec.Probes = w.CountersSnapshot()
 		rec.EventHash, rec.StateHash = w.EventHash(), w.StateHash()
 		rec.Notes = w.Notes
 		rec.Tail = w.Tail(40)
